@@ -338,8 +338,9 @@ def r_link(prog, tier):
                             and isinstance(n.ast.targets[0], ast.Name) \
                             and cfg.dominates(n.id, c.node) and n.id != c.node:
                         val = n.ast.value
+                        fname_ = unparse(val.func).split('.')[-1].lstrip('_') if isinstance(val, ast.Call) else ''
                         if isinstance(val, ast.Call) and (prog.callee(val, f) == ('trees', 'children')
-                                                          or (isinstance(val.func, ast.Name) and val.func.id in ('list', 'sorted'))):
+                                                          or fname_ in ('list', 'sorted', 'tuple', 'deque')):
                             snaps.append(n.ast.targets[0].id)
                 reatt = None
                 for a in atts:
@@ -437,6 +438,9 @@ def _derives_from(func, e, at, snaps, depth=0):
                     good += 1
             elif isinstance(v, ast.Subscript) and root_name(v) in snaps:
                 good += 1
+            elif isinstance(v, ast.Call) and isinstance(v.func, ast.Attribute) and v.func.attr in ('pop', 'popleft') \
+                    and root_name(v.func.value) in snaps:
+                good += 1           # taken out of the snapshot (a work list / deque)
             elif isinstance(v, ast.Constant) and v.value is None:
                 continue
         return good > 0
@@ -952,14 +956,48 @@ class _RootFlow(object):
                     if isinstance(sub, ast.Name):
                         st[sub.id] = 'NODE'
             elif node.kind == 'assume':
-                fa = norm_test(node.ast, node.pol)
-                nm = None
-                if fa[0] == 'none' and fa[2] is True and fa[1].endswith('.parent'):
-                    nm = fa[1][:-len('.parent')]
-                elif fa[0] == 'truthy' and fa[2] is False and fa[1].endswith('.parent'):
-                    nm = fa[1][:-len('.parent')]
-                if nm and st.get(nm) in ('ROOT', 'NODE', 'FRESH'):
-                    st[nm] = 'ROOT'
+                def apply_fact(st0, e_, pol_):
+                    """state after assuming e_ == pol_; None if a name holding a node would have to be None"""
+                    if isinstance(e_, ast.UnaryOp) and isinstance(e_.op, ast.Not):
+                        return apply_fact(st0, e_.operand, not pol_)
+                    if isinstance(e_, ast.BoolOp):
+                        conj = isinstance(e_.op, ast.And)
+                        if conj == pol_:
+                            # all parts hold (and / not-or): apply one after the other
+                            cur = dict(st0)
+                            for v_ in e_.values:
+                                cur = apply_fact(cur, v_, pol_)
+                                if cur is None:
+                                    return None
+                            return cur
+                        # one of the parts decides (not-and / or): join over the feasible alternatives
+                        alts = [apply_fact(dict(st0), v_, pol_) for v_ in e_.values]
+                        alts = [a_ for a_ in alts if a_ is not None]
+                        if not alts:
+                            return None
+                        res = dict(alts[0])
+                        for a_ in alts[1:]:
+                            for k_ in set(res) | set(a_):
+                                res[k_] = self.join(res.get(k_), a_.get(k_)) if (k_ in res and k_ in a_) else 'OTHER'
+                        return res
+                    fa_ = norm_test(e_, pol_)
+                    st1 = dict(st0)
+                    nm_ = None
+                    if fa_[0] == 'none' and fa_[2] is True and fa_[1].endswith('.parent'):
+                        nm_ = fa_[1][:-len('.parent')]
+                    elif fa_[0] == 'truthy' and fa_[2] is False and fa_[1].endswith('.parent'):
+                        nm_ = fa_[1][:-len('.parent')]
+                    if nm_ and st1.get(nm_) in ('ROOT', 'NODE', 'FRESH'):
+                        st1[nm_] = 'ROOT'
+                    if (fa_[0] == 'none' and fa_[2] is True and st1.get(fa_[1]) in ('ROOT', 'NODE', 'FRESH')) or \
+                            (fa_[0] == 'truthy' and fa_[2] is False and st1.get(fa_[1]) in ('ROOT', 'NODE', 'FRESH')):
+                        return None         # a name that holds a node is not None
+                    return st1
+                st2 = apply_fact(st, node.ast, node.pol)
+                if st2 is None:
+                    out[n] = st
+                    continue
+                st = st2
             out[n] = st
             exit_state = None
             if node.kind == 'iter' and isinstance(node.ast.iter, ast.Call) \
